@@ -363,6 +363,9 @@ package table
 //@   loop 0 invariant forall k int :: 0 <= k && k <= __iter ==> asns[k] == asn
 //@   at-call bgp.NewAs4PathParam(segType, newAsList) requires int(repeat) > 0 ==> arg1[0] == asn && arg1[int(repeat)-1] == asn
 //@   at-call bgp.NewAs4PathParam(segType, asns) requires len(arg1) > 0 && arg1[0] == asn && arg1[len(arg1)-1] == asn
+// from C11 (the packers budget from Len(), the stored Length): the attribute that is stored is built by the
+// constructor from the final segments - segments grown after the attribute was made leave its Length stale
+//@   at-call path.setPathAttr(bgp.NewPathAttributeAsPath(asPath.Value)) requires arg0 != nil
 
 // from C10 "what is read back equals what was configured": removing conditions / actions from a statement removes
 // the ones that were named - the element cut out of the working copy is the one of the named type
